@@ -18,7 +18,7 @@ STRVARS = ["os_name", "sys_platform", "platform_machine", "platform_system", "im
            "platform_python_implementation"]
 STRLIT = ["linux", "linux2", "lin", "win32", "win", "darwin", "nt", "posix", "", "x86_64", "arm64", "cpython", "pypy"]
 PYV = ["2.7", "3.0", "3.1", "3.6", "3.7", "3.8", "3.9", "3.10", "3.11", "3.12"]
-PYV1 = ["3", "2"]  # one-component python_version values (allowed by the quantifier: values X or X.Y)
+PYV1 = ["3", "2", "3.8.0", "3.10.0"]  # other spellings of python_version values: bare major, X.Y.0
 PYFV = ["2.7", "2.7.18", "3.0", "3.1.5", "3.6", "3.6.0", "3.6.2", "3.7", "3.7.0", "3.7.9", "3.8.0", "3.8.1", "3.9",
         "3.10", "3.10.0", "3.10.4", "3.11", "3.12.1"]
 REL = ["4.19", "5.10", "5.10.0", "6", "6.1", "6.1.0", "10.0"]
@@ -41,6 +41,7 @@ class Cfg:
         self.strin = True
         self.release = True
         self.few_vars = None         # restrict string variables
+        self.prelit = False          # pre / post / dev release *literals* (separate stratum)
         self.__dict__.update(kw)
 
 
@@ -51,6 +52,8 @@ def q(s: str) -> str:
 def atom(rnd: random.Random, cfg: Cfg, strvars=None, strlit=None) -> str:
     strvars = strvars or cfg.few_vars or STRVARS
     strlit = strlit or STRLIT
+    if getattr(cfg, "prelit", False) and rnd.random() < 0.5:
+        return prelit_atom(rnd, cfg.reversed_ok)
     k = rnd.random()
     if k < 0.35:
         var = rnd.choice(strvars)
@@ -88,6 +91,21 @@ def atom(rnd: random.Random, cfg: Cfg, strvars=None, strlit=None) -> str:
             return f"{q(e)} {op} extra"
         return f"extra {op} {q(e)}"
     return atom(rnd, cfg, strvars, strlit)
+
+
+PRELITS = ["3.8.0rc1", "3.8.0a1", "3.9.0b2", "3.8a1", "3.8.0.dev1", "3.9.0.post1", "3.8.1rc1", "3.10.0a1", "3.8.0",
+           "3.9.0", "3.8", "3.9.1"]
+RELPRELITS = ["5.10.0rc1", "5.10.0.post1", "6.0a1", "5.10", "5.10.0", "6"]
+
+
+def prelit_atom(rnd: random.Random, reversed_ok: bool = True) -> str:
+    """Version atom whose literal may be a pre / post / dev release (valid PEP 440 versions)."""
+    var = rnd.choice(["python_full_version", "python_full_version", "platform_release"])
+    v = rnd.choice(PRELITS if var == "python_full_version" else RELPRELITS)
+    op = rnd.choice(CMP)
+    if reversed_ok and rnd.random() < 0.35:
+        return f"{q(v)} {op} {var}"
+    return f"{var} {op} {q(v)}"
 
 
 def text(rnd: random.Random, cfg: Cfg, depth: int, strvars=None, strlit=None) -> str:
@@ -215,12 +233,17 @@ RELEASES = ["4.19.0", "5.10", "5.10.0", "5.10.1", "6.0", "6.1.0", "6.2", "10.0",
 
 
 def _ints(s):
+    import re
+
     out = []
     for p in s.split("."):
         p = p.strip()
         if p.isdigit():
             out.append(int(p))
         else:
+            m = re.match(r"\d+", p)  # "0rc1" -> 0 : the base release of a pre-release literal
+            if m:
+                out.append(int(m.group(0)))
             break
     return out
 
